@@ -439,6 +439,11 @@ def build(tier, repo):
                   "arguments are left intact on every exit, including allocation failures")
     chk.note_analysed("frees_checked", mr5.free_local_rule(r9, {"lapack.c": c}, ["lapack.c"]))
     r9.require(20)
+    r10 = chk.rule("C18-R10", "work arrays have the same element count in the real and the complex arm; scratch pivot copies cover every allocated element",
+                   "documented outputs (pivot vectors) are complete; no routine writes past its work space")
+    chk.note_analysed("arm_allocations", mr5.arm_alloc_rule(r10, c, wrappers))
+    chk.note_analysed("scratch_copy_loops", mr5.scratch_copy_bound_rule(r10, c, wrappers))
+    r10.require(20)
     r6.require(150)
     return chk
 
